@@ -67,3 +67,77 @@ func TestGovcC20BusUnsubscribeLeavesOthers(t *testing.T) {
 		}
 	}
 }
+
+// subscribers of a name next to subscribers of everything (the wildcard): each subscriber kind ∈ {name A,
+// name B, wildcard}; every combination of up to three subscribers, every subset leaving between two rounds of
+// publications; a subscriber receives exactly the messages of its names (the wildcard: all), in order, exactly once
+func TestGovcC20BusWildcardNextToNamed(t *testing.T) {
+	kinds := [][]Name{{UpdateName}, {MergeCompleteName}, {WildCardName}}
+	wants := func(kind int, n Name) bool {
+		return kind == 2 || kinds[kind][0] == n
+	}
+	cases := 0
+	for k := 1; k <= 3; k++ {
+		total := 1
+		for i := 0; i < k; i++ {
+			total *= 3
+		}
+		for combo := 0; combo < total; combo++ {
+			kind := make([]int, k)
+			c := combo
+			for i := range kind {
+				kind[i] = c % 3
+				c /= 3
+			}
+			for leave := 0; leave < 1<<k; leave++ {
+				cases++
+				bus := NewChannelBus(10, 10)
+				subs := make([]Subscription, k)
+				for i := range subs {
+					s, err := bus.Subscribe(kinds[kind[i]]...)
+					if err != nil {
+						t.Fatal(err)
+					}
+					subs[i] = s
+				}
+				round := func(base int, active func(i int) bool) {
+					bus.Publish(NewMessage(UpdateName, base))
+					bus.Publish(NewMessage(MergeCompleteName, base+1))
+					for i := range subs {
+						if !active(i) {
+							continue
+						}
+						var want []string
+						if wants(kind[i], UpdateName) {
+							want = append(want, fmt.Sprint(UpdateName, ":", base))
+						}
+						if wants(kind[i], MergeCompleteName) {
+							want = append(want, fmt.Sprint(MergeCompleteName, ":", base+1))
+						}
+						got := c20Drain(subs[i], len(want))
+						// nothing more than that may be waiting
+						select {
+						case m, ok := <-subs[i].Message():
+							if ok {
+								got = append(got, fmt.Sprint("extra ", m.Name, ":", m.Data))
+							}
+						case <-time.After(5 * time.Millisecond):
+						}
+						if fmt.Sprint(got) != fmt.Sprint(want) {
+							t.Errorf("C20: subscriber kinds %v (0: update, 1: merge-complete, 2: wildcard), leavers mask %b, round %d: subscriber %d received %v, want %v", kind, leave, base, i, got, want)
+						}
+					}
+				}
+				round(10, func(int) bool { return true })
+				for i := range subs {
+					if leave&(1<<i) != 0 {
+						bus.Unsubscribe(subs[i])
+					}
+				}
+				round(20, func(i int) bool { return leave&(1<<i) == 0 })
+				bus.Close()
+			}
+		}
+	}
+	t.Logf("wildcard cases: %d", cases)
+}
